@@ -22,8 +22,12 @@ def main():
     prop = sys.argv[1]
     tier = sys.argv[3] if len(sys.argv) > 3 and sys.argv[2] == '--tier' else 'quick'
     data_file = '/tmp/cov-%s-%d.db' % (prop, os.getpid())
-    cov = coverage.Coverage(branch=False, data_file=data_file,
-                            include=[REPO + '/stone/*'] + ['*/' + n for n in RSRC_NAMES])
+    # settings live in a file so that pool workers (multiprocessing) measure too and are combined afterwards
+    rc = data_file + '.rc'
+    with open(rc, 'w') as fh:
+        fh.write('[run]\nbranch = False\nparallel = True\nconcurrency = multiprocessing\ndata_file = %s\ninclude =\n    %s/stone/*\n%s\n'
+                 % (data_file, REPO, ''.join('    */%s\n' % n for n in sorted(RSRC_NAMES))))
+    cov = coverage.Coverage(config_file=rc)
     sys.path.insert(0, VERIF)
     sys.argv = ['main.py', prop, '--tier', tier]
     from harness import main as hm
@@ -32,6 +36,8 @@ def main():
         code = hm.main()
     finally:
         cov.stop()
+        cov.save()
+    cov.combine()
     data = cov.get_data()
     executed = collections.defaultdict(set)
     for f in data.measured_files():
@@ -87,10 +93,12 @@ def main():
     json.dump({'summary': summary,
                'executed': {os.path.relpath(k, REPO): sorted(v) for k, v in executed.items() if os.path.exists(k) and k.endswith('.py')}},
               open(os.path.join(VERIF, 'notes', 'coverage', prop + '.json'), 'w'), sort_keys=True)
-    try:
-        os.remove(data_file)
-    except OSError:
-        pass
+    import glob
+    for f in glob.glob(data_file + '*'):
+        try:
+            os.remove(f)
+        except OSError:
+            pass
     return code
 
 
